@@ -61,6 +61,40 @@ func (rf *Ref) Eval(e *gram.Expr, pos int) []Res {
 		return []Res{{t, pos}}
 	case gram.OpNT:
 		return rf.D[e.NT][pos]
+	case gram.OpEnd:
+		if pos == len(rf.In) {
+			t := ""
+			if !rf.EndsOnly {
+				t = fmt.Sprintf("End@%d", pos)
+			}
+			return []Res{{t, pos}}
+		}
+		return nil
+	case gram.OpLTrim:
+		// LeftTrim(p, mode): the run of whitespace at pos is skipped; p's results from the end of the run count iff the run
+		// satisfies the mode (0 none: empty run, 1 spaces: no line break, 2 spaces and newlines: anything, 3: >= 1 line break)
+		q, nl := pos, false
+		for q < len(rf.In) && (rf.In[q] == ' ' || rf.In[q] == '\t' || rf.In[q] == '\n' || rf.In[q] == '\f') {
+			if rf.In[q] == '\n' || rf.In[q] == '\f' {
+				nl = true
+			}
+			q++
+		}
+		switch e.C {
+		case 0:
+			if q > pos {
+				return nil
+			}
+		case 1:
+			if nl {
+				return nil
+			}
+		case 3:
+			if !nl {
+				return nil
+			}
+		}
+		return rf.Eval(e.Kids[0], q)
 	case gram.OpAny:
 		var out []Res
 		for _, k := range e.Kids {
